@@ -36,12 +36,6 @@ BRACE_NUM_FEATURE = r"\{[^{}]*\d{19,}"
 BRACE_SEQ_FEATURE = r"\{[-+]?(\d+|[A-Za-z])\.\.[-+]?(\d+|[A-Za-z])\.\.[-+]?\d+\}"
 HEREDOC_FEATURE = r"<<"
 KNOWN_PANICS = [
-    ("brace_number_literal_overflow", r"brush-parser/src/word\.rs$", r"ParseIntError", BRACE_NUM_FEATURE),
-    ("brace_sequence_step_underflow", r"brush-core/src/braceexpansion\.rs$", r"subtract with overflow", BRACE_SEQ_FEATURE),
-    ("history_count_exceeds_items", r"brush-builtins/src/history\.rs$", r"subtract with overflow", r"history\s+\d"),
-    ("heredoc_in_nested_construct_unwrap", r"brush-parser/src/tokenizer\.rs$", r"Option::unwrap", HEREDOC_FEATURE),
-    ("strftime_invalid_format_panics", r"^std:alloc/src/string\.rs$", r"Display implementation returned an error", r"\\D\{|HISTTIMEFORMAT|%\("),
-    ("redirect_fd_number_overflow", r"brush-parser/src/parser/peg\.rs$", r"ParseIntError", r"\d{10,}\s*[<>]"),
     ("wait_repolls_failed_background_job", r"^dep:tokio-[^/]*/src/runtime/task/core\.rs$", r"JoinHandle polled after completion", r"&[\s\S]*\bwait\b"),
     ("backquote_escape_span_boundary", r"brush-interactive/src/highlighting\.rs$", r"char boundary", r"`[^`]*\\"),
 ]
@@ -70,11 +64,6 @@ EXP_STAGES = ("program", "text:brace", "token:brace", "text:word", "token:word",
 def known_hang_clause(text, stage=None):
     if deep_nest(text) and (stage is None or stage in EXP_STAGES):
         return "nested_construct_exponential_backtracking"
-    if HANG_EMPTY_TAG.search(text):
-        return "heredoc_empty_tag_at_eof_hang"
-    for m in HANG_CHAR_INC.finditer(text):
-        if int(m.group(1)) % (2 ** 32) == 0:
-            return "brace_char_increment_wraps_to_zero"
     return None
 
 
@@ -94,7 +83,9 @@ def canon_file(f):
 
 
 def cheap_hang(text):
-    return bool(HANG_EMPTY_TAG.search(text)) or known_hang_clause(text) == "brace_char_increment_wraps_to_zero"
+    """inputs known to hang that are cheap to recognise before sending them (none at present: the
+    here-document and character-increment hangs are repaired)"""
+    return False
 
 
 def panic_clause(loc, msg, text):
@@ -183,7 +174,7 @@ def _num(t):
 def brace_count(s, e, i):
     """words an (unpanicking) numeric sequence produces; None when a literal does not fit i64"""
     vs = [_num(s), _num(e), 1 if i == "-" else _num(i)]
-    if any(v is None or abs(v) > MAX for v in vs):
+    if any(v is None or v < MIN or v > MAX for v in vs):
         return None
     a, b, inc = vs
     inc = abs(inc) or 1
@@ -312,7 +303,7 @@ def split_resp(r):
     return "?", r, "", ""
 
 
-HOT_CLAUSE = {"hist": "history_count_exceeds_items"}
+HOT_CLAUSE = {}   # no open clause on a hot spot: every panic there is a VIOLATION
 
 
 def hot_clause(kind, loc, msg, hline):
@@ -639,12 +630,9 @@ def unsafe_count(text):
             inc = abs(int(m.group(3))) if m.group(3) else 1
         except ValueError:
             continue
-        if abs(a) > MAX or abs(b) > MAX or inc > MAX:
+        if a < MIN or a > MAX or b < MIN or b > MAX or inc > 2 ** 63:
             continue
         if abs(b - a) // (inc or 1) > 5000:
-            return True
-    for m in HANG_CHAR_INC.finditer(text):
-        if int(m.group(1)) % (2 ** 32) == 0:
             return True
     return False
 
